@@ -48,7 +48,24 @@ def main():
         if not getattr(mod, 'NO_DETERMINISM', False):
             attach.DET['ctx'] = ctx
         attach.AMB['on'] = not getattr(mod, 'NO_DECIMAL_CONTEXT', False) and os.environ.get('VERIF_NO_DECIMAL_CONTEXT') != '1'
-        mod.run_shard(ctx, spec)
+        if ctx.ambient and ctx.ambient.get('thread') and not getattr(mod, 'NO_WORKER_THREAD', False):
+            import threading
+            box = []
+
+            def body():
+                try:
+                    mod.run_shard(ctx, spec)
+                except BaseException as e:       # noqa - re-raised in the main thread below
+                    box.append(e)
+            threading.stack_size(256 * 1024 * 1024)
+            t = threading.Thread(target=body, name='shard-workload')
+            t.start()
+            t.join()
+            ctx.counters['ambient.workload-in-a-thread-of-its-own'] += 1
+            if box:
+                raise box[0]
+        else:
+            mod.run_shard(ctx, spec)
         if attach.DET['recs']:
             attach.replay_recorded(random.Random(int(seed) * 7 + 1))
             attach.replay_recorded(random.Random(int(seed) * 7 + 2))
